@@ -92,17 +92,19 @@ def run(rep: vk.Report):
     solves = diffs = 0
     lin_bad = 0
     def sources():
-        for g, e in common.corpus(rng, rep.tier, 0, focus_profile="all", focus_scale=0.3, pool_kwargs={"with_matrices": False}):
-            yield g, e
+        # every focused item that mentions a Parameter: as a factor of each reduction kind, as offset, as exponent, as base
+        for g, e in common.corpus(rng, rep.tier, 0, focus_profile="all", pool_kwargs={"with_matrices": False},
+                                  want=["p*", "f-p", "f**p", "(param)"]):
+            yield g, e, False
         for _ in range(n):
             r0 = random.Random(rng.random())
             g = gen.Gen(r0, profile="all", pool=gen.Pool(r0, with_params=True, with_matrices=False))
             try:
-                yield g, param_expr(g, r0)
+                yield g, param_expr(g, r0), True
             except Exception:
                 continue
 
-    for i, (g, e) in enumerate(sources()):
+    for i, (g, e, well_posed) in enumerate(sources()):
         r = g.rng
         try:
             Ss = ser.Ser()
@@ -192,9 +194,11 @@ def run(rep: vk.Report):
                         nums.append(f"({te}, (Some {ser.s(names[a_])}, Some {ser.s(names[b_])}), {common.pts_term(pt)}, {common.pts_term(ppts)}, [{ser.q(float(H[a_, b_]))}])")
                         nmeta.append(dict(meta, what=f"hess[{names[a_]},{names[b_]}]", values=[float(H[a_, b_])]))
             # the property's own oracle with real solvers: live model vs fresh model with constants
-            if step == 2 and i % (3 if rep.tier == "quick" else 1) == 0:
+            # (only for the curated, well-posed families: on an arbitrary tree - a pole inside the box, an unbounded direction -
+            #  two rounding-different callables may legitimately end in different verdicts)
+            if step == 2 and well_posed and i % (3 if rep.tier == "quick" else 1) == 0:
                 for v in V:
-                    v.lb, v.ub = -3.0, 3.0
+                    v.lb, v.ub = -1.0, 3.0          # keeps a + 1.5 > 0: no pole or complex power inside the box
                 F = Problem().minimize(fresh_with_constants(e))
                 F.subject_to(sum((v for v in V[1:]), V[0]) * float(list(params.values())[0].value) <= 10)
                 for meth in ["SLSQP", "trust-constr"]:
@@ -205,8 +209,14 @@ def run(rep: vk.Report):
                         except Exception:
                             continue
                     solves += 1
-                    same = a_sol.status == b_sol.status and all(
-                        abs(a_sol.values[k] - b_sol.values[k]) <= 1e-5 * max(1.0, abs(b_sol.values[k])) for k in b_sol.values)
+                    # same verdict and the same optimal VALUE (two rounding-different but equivalent callables may drive a local solver
+                    # to slightly different points of a flat or non-smooth valley; a stale parameter changes the value)
+                    same = a_sol.status == b_sol.status
+                    if same and a_sol.values and b_sol.values:
+                        with np.errstate(all="ignore"):
+                            fa, fb = common.fval(F.objective.evaluate(a_sol.values)), common.fval(F.objective.evaluate(b_sol.values))
+                        pts_close = all(abs(a_sol.values[k] - b_sol.values[k]) <= 1e-5 * max(1.0, abs(b_sol.values[k])) for k in b_sol.values)
+                        same = pts_close or (fa is not None and fb is not None and abs(fa - fb) <= 1e-5 * max(1.0, abs(fb)))
                     if not same and b_sol.values:
                         diffs += 1
                         rep.violation({"kind": "real-solver", "obligation": "solve after updates = solve of the fresh constant model",
